@@ -793,15 +793,21 @@ class MSys:
             f1, f2 = Atom("F", label="f1"), Atom("Cl", label="f2")
             st.keep += [f1, f2]
             new = []
+            one = akind == "set"  # a set has no order (Bond hashes by address): one element keeps the run deterministic
             if which == "m":
-                idx = [(0, 1)] + ([(0, 2)] if n >= 3 else [])
+                idx = [(0, 1)] + ([(0, 2)] if n >= 3 and not one else [])
                 bl = [Bond(obj(i), obj(j)) for i, j in idx]
                 newpairs = lambda ids: [_pair(aid_at(i), aid_at(j)) for i, j in idx]
             elif which == "f":
                 validity = "either"
-                bl = [Bond(obj(n - 1), f1), Bond(f1, f2)]
-                new = [(f1, "F"), (f2, "Cl")]
-                newpairs = lambda ids: [_pair(aid_at(n - 1), ids[0]), _pair(ids[0], ids[1])]
+                if one:
+                    bl = [Bond(obj(n - 1), f1)]
+                    new = [(f1, "F")]
+                    newpairs = lambda ids: [_pair(aid_at(n - 1), ids[0])]
+                else:
+                    bl = [Bond(obj(n - 1), f1), Bond(f1, f2)]
+                    new = [(f1, "F"), (f2, "Cl")]
+                    newpairs = lambda ids: [_pair(aid_at(n - 1), ids[0]), _pair(ids[0], ids[1])]
             else:
                 bl = []
                 newpairs = lambda ids: []
@@ -1340,7 +1346,7 @@ def _repro_of(hist, pose):
             L.append(f"m.del_bond(m.bonds[{op[1]}])")
         elif k == "xbonds":
             mk = {"m": "[Bond(m.atoms[0], m.atoms[1])] + ([Bond(m.atoms[0], m.atoms[2])] if m.n_atoms > 2 else [])", "f": "[Bond(m.atoms[-1], f), Bond(f, Atom('Cl'))]", "e": "[]"}[op[3]]
-            wrap = {"list": "bl", "tuple": "tuple(bl)", "set": "set(bl)", "gen": "(b for b in bl)", "iter": "iter(bl)", "map": "map(lambda b: b, bl)"}[op[2]]
+            wrap = {"list": "bl", "tuple": "tuple(bl)", "set": "set(bl[:1])", "gen": "(b for b in bl)", "iter": "iter(bl)", "map": "map(lambda b: b, bl)"}[op[2]]
             L.append(f"f = Atom('F'); bl = {mk}")
             L.append(f"m.extend_bonds({wrap})" if op[1] == "extend" else f"m.append_bonds(*{wrap})")
             L.append("print('bond parents', [b.parent is m for b in m.bonds])")
@@ -1463,7 +1469,16 @@ def run(ctx):
 
     # (1) every start state, the tier's full alphabet
     d_all = 3 if thorough else 2
-    seqx.pbfs(ctx, mk_full, inits, d_all, nproc=nproc, chunk=16)
+    if thorough:
+        # the partner start states added for the shared-array family differ from chain3 only until the
+        # first add/del (a copy then owns fresh arrays): depth 2 for them, depth 3 for the others
+        extra = [h for h in inits if h[0][2] in ("clone2", "cloned", "twins")]
+        seqx.pbfs(ctx, mk_full, extra, 2, nproc=nproc, chunk=16)
+        ctx.bound["full_alphabet_partner_starts_depth"] = 2
+        phase("1a_partner_starts")
+        seqx.pbfs(ctx, mk_full, [h for h in inits if h not in extra], d_all, nproc=nproc, chunk=16)
+    else:
+        seqx.pbfs(ctx, mk_full, inits, d_all, nproc=nproc, chunk=16)
     ctx.bound["full_alphabet_all_starts_depth"] = d_all
     phase("1_all_starts")
     ctx.bound["add_elements"] = list(elems)
